@@ -82,7 +82,7 @@ GoodAtoms(kind) ==
       [] kind = "bool"    -> {"false", "true"}
       [] kind = "bytes"   -> {"zero", "len1", "len2", "len3", "len4"}
       [] kind = "timestamp" -> {"epoch", "nanos", "pre1970", "y0001", "y9999"}
-      [] kind = "date"    -> {"d0001", "d0999", "leap", "d9999"}
+      [] kind = "date"    -> {"d0001", "d0999", "leap", "leap400", "d9999"}      \* leap400: 2000-02-29 (a century that IS a leap year)
       [] kind = "decimal" -> {"zero", "neg", "big", "small", "exp", "int"}
       [] kind = "enum"    -> {"unspec", "red", "green"}
       [] OTHER -> {}
@@ -260,7 +260,9 @@ NormMembers(props, m, parentT, i) ==
                     ELSE <<KV(p.name, nv)>> \o rest
 
 (* ---------------- Enc: value -> JSON tree, parameterised by a spelling / fault record ---------------- *)
-(* S = [fk, form, rev, nulls, rep, replvl, repnode, uk, of, ofn]                                        *)
+(* S = [fk, form, rev, nulls, rep, replvl, repnode, uk, of, ofn, fkey]                                  *)
+(*   fkey     the key the focus member is written under, when it is not its JSON name ("" = the JSON     *)
+(*            name): the proto spelling foo_bar or FooBar is an unknown key like any other               *)
 (*   fk/form  the spelling used for leaves of kind fk (others canonical)                                 *)
 (*   rev      members of every object reversed;  nulls  explicit null for every absent member            *)
 (*   rep      TRUE: the focus element (replvl = "elem") or the whole focus field ("field") is            *)
@@ -269,7 +271,7 @@ NormMembers(props, m, parentT, i) ==
 (*   of, ofn  oneof fault "multi" | "mismatch" | "typenum" applied to the oneof type ofn ("" = none)     *)
 
 S0(kind) == [fk |-> kind, form |-> CanonForm(kind), rev |-> FALSE, nulls |-> FALSE, rep |-> FALSE, replvl |-> "",
-             repnode |-> JNull, uk |-> "", of |-> "", ofn |-> ""]
+             repnode |-> JNull, uk |-> "", of |-> "", ofn |-> "", fkey |-> ""]
 
 FormFor(S, kind) == IF S.fk = kind THEN S.form ELSE CanonForm(kind)
 Ord(S, m) == IF S.rev THEN Reverse(m) ELSE m
@@ -322,7 +324,7 @@ EncMembers(props, m, parentT, S, i) ==
             ELSE IF p.card \in {"one", "opt"} /\ IsZeroLeaf(p.sch, x[1]) /\ ~HasPresence(p, parentT) THEN absent \o rest
             ELSE IF p.card = "arr" /\ x[1].s = <<>> THEN absent \o rest
             ELSE IF p.card = "map" /\ x[1].m = <<>> THEN absent \o rest
-            ELSE <<KV(p.name, EncCard(p, x[1], S))>> \o rest
+            ELSE <<KV(IF p.name = FocusName /\ S.fkey # "" THEN S.fkey ELSE p.name, EncCard(p, x[1], S))>> \o rest
 
 (* ---------------- Dec: JSON tree -> value or Reject ---------------- *)
 
@@ -452,7 +454,12 @@ ElemFaults(kind) ==
       [] kind = "date" -> ShapeFaults \cup {BoolFault, NumFault}
             \cup { [cls |-> "invalid-date:text", node |-> Bad(kind, "bad", "str", "canon")],
                    [cls |-> "invalid-date:parts", node |-> Bad(kind, "badparts", "str", "canon")],
-                   [cls |-> "invalid-date:calendar", node |-> Bad(kind, "badcal", "str", "canon")] }
+                   [cls |-> "invalid-date:calendar", node |-> Bad(kind, "badcal", "str", "canon")],
+                   \* 29 February of a year divisible by 100 but not by 400, and of a common year; month 13; day 0
+                   [cls |-> "invalid-date:century-leap", node |-> Bad(kind, "badleap100", "str", "canon")],
+                   [cls |-> "invalid-date:common-leap", node |-> Bad(kind, "badleap", "str", "canon")],
+                   [cls |-> "invalid-date:month13", node |-> Bad(kind, "badmonth", "str", "canon")],
+                   [cls |-> "invalid-date:day0", node |-> Bad(kind, "badday0", "str", "canon")] }
       [] kind = "decimal" -> ShapeFaults \cup {BoolFault}
             \cup { [cls |-> "invalid-decimal:dots", node |-> Bad(kind, "bad", "str", "quoted")],
                    [cls |-> "invalid-decimal:junk", node |-> Bad(kind, "junk", "str", "quoted")],
@@ -555,6 +562,10 @@ InjectFault ==
             /\ sp' = [S0(kind) EXCEPT !.rep = TRUE, !.replvl = "field", !.repnode = f.node] /\ fcls' = f.cls
        \/ \E tn \in ObjTypes(kind, pos, TRUE, lbls[1]) \cup OneofTypes(kind, pos, TRUE, lbls[1]) :
             /\ sp' = [S0(kind) EXCEPT !.uk = tn] /\ fcls' = "unknownkey:" \o tn
+       \* the focus member under another spelling of its name (the proto field name, an upper-camel form): an unknown key
+       \/ \E k \in {"foo_bar", "FooBar", "foo-bar"} :
+            /\ pos \notin {"armdirect", "expdirect"}          \* there the focus is an arm of a oneof: its key is the "!type"
+            /\ sp' = [S0(kind) EXCEPT !.fkey = k] /\ fcls' = "unknownkey:spelling:" \o k
        \* the oneof faults are injected with the members in canonical order ("!type" first) and reversed ("!type" after the
        \* key it contradicts): a decoder that checks "!type" while reading keys sees them in document order
        \/ \E tn \in OneofTypes(kind, pos, TRUE, lbls[1]), of \in {"multi", "mismatch", "typenum"}, rv \in BOOLEAN :
